@@ -205,8 +205,36 @@ pub fn run(em: &mut Emit, thorough: bool, seed: u64) {
         let exp = match want { Ok(w) if w.is_finite() => format!("(ok (lit {}))", sx_f64(w)), _ => "(reject)".to_string() };
         lit_case(em, t, exp, "double-text");
     }
+    // leading zeros and long digit strings (the digits before the value must not count towards
+    // the range), in literals and as conversion arguments
+    for z in [1usize, 2, 17, 18, 19, 20, 21, 40, 100] {
+        let zs = "0".repeat(z);
+        for (t, exp) in [
+            (format!("{}1", zs), "(ok (lit (int 1)))".to_string()),
+            (format!("{}9223372036854775807", zs), "(ok (lit (int 9223372036854775807)))".to_string()),
+            (format!("{}9223372036854775808", zs), "(reject)".to_string()),
+            (format!("-{}9223372036854775808", zs), "(ok (lit (int -9223372036854775808)))".to_string()),
+            (format!("{}18446744073709551615u", zs), "(ok (lit (uint 18446744073709551615)))".to_string()),
+            (format!("{}18446744073709551616u", zs), "(reject)".to_string()),
+            (format!("0x{}7fffffffffffffff", zs), "(ok (lit (int 9223372036854775807)))".to_string()),
+            (format!("0x{}8000000000000000", zs), "(reject)".to_string()),
+            (format!("0x{}ffffffffffffffffu", zs), "(ok (lit (uint 18446744073709551615)))".to_string()),
+            (format!("{}1.5", zs), format!("(ok (lit {}))", sx_f64(1.5))),
+            (format!("1.{}5", zs), { let w: f64 = format!("1.{}5", zs).parse().unwrap(); format!("(ok (lit {}))", sx_f64(w)) }),
+            (format!("1{}.0", zs), { let w: f64 = format!("1{}.0", zs).parse().unwrap(); format!("(ok (lit {}))", sx_f64(w)) }),
+        ] {
+            lit_case(em, &t, exp, "leading-zeros");
+        }
+    }
     // conversions
     let mut vals: Vec<Value> = Vec::new();
+    for z in [1usize, 18, 19, 20, 40] {
+        let zs = "0".repeat(z);
+        for t in [format!("{}7", zs), format!("-{}7", zs), format!("{}9223372036854775807", zs), format!("{}18446744073709551615", zs),
+                  format!("{}18446744073709551616", zs), format!("{}.5", zs), format!("1{}", zs), format!("0.{}1", zs)] {
+            vals.push(Value::String(Arc::new(t)));
+        }
+    }
     for v in &ints {
         if *v >= i64::MIN as i128 && *v <= i64::MAX as i128 {
             vals.push(Value::Int(*v as i64));
